@@ -405,3 +405,97 @@ func init() {
 			}}
 	})
 }
+
+func urgent(s Step) Step { s.Urgent = true; return s }
+
+func (w *World) cut(a, b int, on bool) {
+	if on {
+		w.blocked[[2]int{a, b}] = true
+		w.blocked[[2]int{b, a}] = true
+	} else {
+		delete(w.blocked, [2]int{a, b})
+		delete(w.blocked, [2]int{b, a})
+	}
+}
+
+func init() {
+	// Figure 8 with one entry per AppendEntries: the old-term tail reaches a majority before the new leader's no-op
+	regScenario("fig8-batch1", func() *Scenario {
+		sc := scenarioByName("fig8")
+		sc.Conf = func(i int, c *raft.Config) { c.MaxAppendEntries = 1 }
+		return sc
+	})
+	// A voter restarts between two vote requests of the same term: n0 wins term 2 with n2's vote while n1 hears
+	// nothing; n2 is restarted before n0's AppendEntries reach it; then n1 asks n2 for its vote.
+	regScenario("revote3", func() *Scenario {
+		return &Scenario{Nodes: voters(3), Devs: DevAll, Horizon: 600, Goal: goalConverged, AutoRestart: true,
+			Steps: []Step{
+				urgent(stepDo("cut-n0-n1", nil, func(w *World) { w.cut(0, 1, true) })),
+				urgent(stepDo("cut-n0-n2-once-elected", func(w *World) bool { l := w.leader(); return l != nil && l.id == 0 }, func(w *World) { w.cut(0, 2, true) })),
+				urgent(stepDo("crash-n2", func(w *World) bool { return w.netIdle() }, func(w *World) { w.crash(w.nodes[2]) })),
+				urgent(stepDo("restart-n2", nil, func(w *World) { w.start(w.nodes[2]) })),
+				stepDo("heal", func(w *World) bool {
+					for _, n := range w.nodes[1:] {
+						if n.up && n.r != nil && n.r.State() == raft.Leader {
+							return true
+						}
+					}
+					return false
+				}, func(w *World) { w.cut(0, 1, false); w.cut(0, 2, false) }),
+				stepDo("apply", whenSettled, func(w *World) { w.apply(w.leader(), 0) }),
+			}}
+	})
+}
+
+func init() {
+	// The Raft paper's Figure 8, step by step: (a) L1 writes x locally; (b) L2 wins the next term and writes only to
+	// itself; (c) L1 is re-elected and replicates x to the third server, one entry per request, and fails before its
+	// own no-op gets there; (d) L2 returns, wins with the third server's vote and overwrites x. x must never have
+	// been reported committed.
+	regScenario("fig8-paper", func() *Scenario {
+		third := func(w *World) *Node {
+			for _, n := range w.nodes {
+				if n.id != w.vals["L1"] && n.id != w.vals["L2"] {
+					return n
+				}
+			}
+			return nil
+		}
+		return &Scenario{Nodes: voters(3), Devs: DevAll, Horizon: 900, Goal: goalConverged, AutoRestart: true,
+			Conf: func(i int, c *raft.Config) { c.MaxAppendEntries = 1 },
+			Steps: []Step{
+				stepDo("isolate-L1", whenSettled, func(w *World) { l := w.leader(); w.vals["L1"] = l.id; w.isolate(l.id, true) }),
+				stepDo("x-on-L1", func(w *World) bool { return w.nodes[w.vals["L1"]].r.State() == raft.Leader }, func(w *World) { w.apply(w.nodes[w.vals["L1"]], 0) }),
+				urgent(stepDo("isolate-L2-at-election", func(w *World) bool {
+					for _, n := range w.nodes {
+						if n.id != w.vals["L1"] && n.up && n.r != nil && n.r.State() == raft.Leader {
+							return true
+						}
+					}
+					return false
+				}, func(w *World) {
+					for _, n := range w.nodes {
+						if n.id != w.vals["L1"] && n.up && n.r != nil && n.r.State() == raft.Leader {
+							w.vals["L2"] = n.id
+							w.isolate(n.id, true)
+						}
+					}
+				})),
+				stepDo("heal-L1", func(w *World) bool { return w.netIdle() }, func(w *World) {
+					w.isolate(w.vals["L1"], false)
+					w.isolate(w.vals["L2"], true)
+				}),
+				urgent(stepDo("crash-L1-once-x-is-on-a-majority", func(w *World) bool {
+					l1 := w.nodes[w.vals["L1"]]
+					if l1.r == nil || l1.r.State() != raft.Leader {
+						return false
+					}
+					d := l1.r.VerifDump()
+					return d.NextIndex[third(w).sid] >= 4 && third(w).store.Peek(3) != nil && third(w).store.Peek(3).Term == 2
+				}, func(w *World) { w.crash(w.nodes[w.vals["L1"]]) })),
+				stepDo("heal-L2", nil, func(w *World) { w.isolate(w.vals["L2"], false); w.isolate(w.vals["L1"], false) }),
+				stepDo("restart-L1", whenSettled, func(w *World) { w.start(w.nodes[w.vals["L1"]]) }),
+				stepDo("apply-final", whenSettled, func(w *World) { w.apply(w.leader(), 0) }),
+			}}
+	})
+}
